@@ -483,3 +483,30 @@ M("c10-groups-accumulate-noreset", "C10", DSP, None, None, rule="S1", note="read
          (DSP, "        self.all_read_groups = set()\n        self.alignment_stat_counter = EnumStats()\n        if self.args.resume", "        self.alignment_stat_counter = EnumStats()\n        if self.args.resume")])
 M("c10-silent-instance-state", "C10", "src/graph_based_model_construction.py", "        self.transcript2transcript = []\n\n    def get_transcript_id(self):",
   "        self.transcript2transcript = []\n        self.seen_paths = set()\n\n    def get_transcript_id(self):", expect="silent", note="new per-instance state")
+
+# ---------------------------------------------------------------- C06
+LRA2 = "src/long_read_assigner.py"
+M("c06-revert-gene-ids", "C06", GI, "feature_type, sorted(gene_ids)))", "feature_type, list(gene_ids)))", rule="O1", note="revert: gene list of a shared feature in set order")
+M("c06-unsorted-ambiguous", "C06", LRA2, "        for isoform_id in sorted(isoform_ids):\n            isoform_matches.append(self.categorize_correct_splice_match(combined_read_profile, isoform_id))",
+  "        for isoform_id in isoform_ids:\n            isoform_matches.append(self.categorize_correct_splice_match(combined_read_profile, isoform_id))", rule="O1",
+  note="ambiguous matches listed in the order of a list derived from set iteration (three calls away)")
+M("c06-unsorted-inconsistencies", "C06", LRA2, "        for isoform_id in sorted(matched_isoforms):\n            # logger.debug(\"Checking isoform %s\" % isoform_id)",
+  "        for isoform_id in matched_isoforms:\n            # logger.debug(\"Checking isoform %s\" % isoform_id)", expect="silent",
+  note="read_matches dict insertion order follows best_candidates (a list filtered from a sorted list): deterministic")
+M("c06-groups-written-in-set-order", "C06", LRC, "            self.ordered_groups = sorted(read_groups)\n", "            self.ordered_groups = list(read_groups)\n", rule="O1",
+  note="grouped table columns in set order")
+M("c06-features-unsorted", "C06", LRC, "        all_features = sorted(filter(lambda x: x is not None, self.all_features))", "        all_features = list(filter(lambda x: x is not None, self.all_features))",
+  rule="O1", note="count table rows in set order")
+M("c06-as-completed", "C06", DSP, "                results = proc.map(*model_gen, chunksize=1)", "                futures = [proc.submit(construct_models_in_parallel, *a) for a in zip(*model_gen[1:])]\n                results = [f.result() for f in concurrent.futures.as_completed(futures)]",
+  rule="O2", note="results consumed in completion order")
+M("c06-merge-unsorted", "C06", "src/file_utils.py", "    file_names.sort(key=lambda s: [int(t) if t.isdigit() else t.lower() for t in re.split('(\\d+)', s)])\n", "", rule="O2",
+  note="per-chromosome parts merged in chromosome-length order")
+M("c06-tiebreak-dropped", "C06", GMC, "        ordered_genes = sorted(gene_counts.items(), key=lambda x: (x[1], x[0]), reverse=True)", "        ordered_genes = sorted(gene_counts.items(), key=lambda x: x[1], reverse=True)",
+  rule="O1", note="tie between genes resolved by dict insertion order = set iteration order")
+M("c06-hash-call", "C06", GMC, "                        transcript_gene = (TranscriptNaming.novel_gene_prefix + self.gene_info.chr_id +\n                                           \"_\" + str(self.get_transcript_id()))",
+  "                        transcript_gene = (TranscriptNaming.novel_gene_prefix + self.gene_info.chr_id +\n                                           \"_\" + str(hash(str(intron_path)) % 100000))", rule="O1",
+  note="id derived from hash(str)")
+M("c06-silent-int-set", "C06", "src/intron_graph.py", "        for intron in to_remove:\n            self.discard(intron)\n            del self.intron_correction_map[intron]",
+  "        for intron in list(to_remove):\n            self.discard(intron)\n            del self.intron_correction_map[intron]", expect="silent", note="list() of an int-tuple set")
+M("c06-silent-membership-set", "C06", LRC, "        self.confirmed_features = set()\n        self.output_stats_file_name", "        self.confirmed_features = set()\n        self.seen_groups = set(read_groups) if read_groups else set()\n        self.output_stats_file_name",
+  expect="silent", note="a new str set that is only stored")
